@@ -107,8 +107,14 @@ Definition export_types := export_types_f types_sorted type_locs_sorted.
 (** ** globals *)
 (** the declaration id (file, position) identifies a global declaration *)
 Definition gid (g : global_decl) : option path * N := (g_path g, g_pos g).
-Definition gkey_k (with_id : bool) (g : global_decl) : option text * (option path * N) :=
-  (g_name g, if with_id then gid g else (None, 0)).
+(** [str::to_lowercase] on ASCII letters (enough to tell exact from case-folded keys) *)
+Definition fold_case (t : text) : text := map (fun c => if (65 <=? c) && (c <=? 90) then c + 32 else c) t.
+(** the name component of the sort key: the exact name — the one [dedup_by] compares — when the
+    code's key expression is the reviewed one ([Gen.C35_sort.globals_key_exact_name]); [exact =
+    false] stands for a key that identifies names the de-duplication tells apart *)
+Definition gkey_n (exact with_id : bool) (g : global_decl) : option text * (option path * N) :=
+  (if exact then g_name g else option_map fold_case (g_name g), if with_id then gid g else (None, 0)).
+Definition gkey_k := gkey_n globals_key_exact_name.
 Definition gkey := gkey_k globals_key_has_decl_id.
 Definition gkey_cmp := pair_cmp (opt_cmp text_cmp) (pair_cmp (opt_cmp path_cmp) N.compare).
 Definition gname_cmp := opt_cmp text_cmp.
@@ -116,9 +122,10 @@ Definition gname_cmp := opt_cmp text_cmp.
 Definition global_rendered (g : global_decl) : bool :=
   match g_name g with Some _ => g_typed g | None => false end.
 
-Definition export_globals_f (sorted dedupf : bool) (gs : list global_decl) : list global_decl :=
-  let rendered := filter global_rendered (sort_if sorted gkey gkey_cmp (filter g_main gs)) in
+Definition export_globals_n (exact sorted dedupf : bool) (gs : list global_decl) : list global_decl :=
+  let rendered := filter global_rendered (sort_if sorted (gkey_n exact globals_key_has_decl_id) gkey_cmp (filter g_main gs)) in
   if dedupf then dedup g_name gname_cmp rendered else rendered.
+Definition export_globals_f := export_globals_n globals_key_exact_name.
 
 Definition export_globals := export_globals_f globals_sorted globals_dedup.
 
